@@ -96,6 +96,7 @@ pub fn s_op() -> SBoxedStrategy<Op> {
     .sboxed();
     let b = prop_oneof![
         4 => (sel_or(KEYS, crate::gen::s_key()), vals()).prop_map(|(k, v)| Op::SetKeyword(k, v)),
+        1 => proptest::sample::select(crate::gen::REAL_KEYWORDS.to_vec()).prop_map(|(k, v)| Op::SetKeyword(k.to_string(), v.iter().map(|x| x.to_string()).collect())),
         3 => sel(KEYS).prop_map(Op::RemoveKeyword),
         1 => Just(Op::ClearKeywords),
         2 => sel(KEYS).prop_map(Op::Keyword),
@@ -109,6 +110,7 @@ pub fn s_op() -> SBoxedStrategy<Op> {
         2 => sel_or(TLANGS, crate::gen::s_langid_bytes().prop_map(|b| String::from_utf8_lossy(&b).to_string()).sboxed()).prop_map(Op::SetTlang),
         1 => Just(Op::ClearTlang),
         4 => (sel_or(TKEYS, crate::gen::s_tkey()), vals()).prop_map(|(k, v)| Op::SetTfield(k, v)),
+        1 => proptest::sample::select(crate::gen::REAL_TFIELDS.to_vec()).prop_map(|(k, v)| Op::SetTfield(k.to_string(), v.iter().map(|x| x.to_string()).collect())),
         3 => sel(TKEYS).prop_map(Op::RemoveTfield),
         1 => Just(Op::ClearTfields),
         2 => sel(TKEYS).prop_map(Op::Tfield),
